@@ -80,6 +80,7 @@ type Config struct {
 	SMTLog      io.Writer
 	ReverseMaps bool
 	Tier        int
+	Unwind      int // visits of one conditional jump with a symbolic condition per path
 	Progress    bool
 	Deadline    time.Time
 }
@@ -423,6 +424,9 @@ func Explore(cfg *Config) *Stats {
 	}
 	if cfg.MaxPaths == 0 {
 		cfg.MaxPaths = 1 << 30
+	}
+	if cfg.Unwind == 0 {
+		cfg.Unwind = 64
 	}
 	st := &Stats{Covers: map[string]int{}, Funcs: map[string]bool{}, InconclWhy: map[string]int{}}
 	wl := &workList{items: [][]bool{nil}}
